@@ -33,9 +33,10 @@ type Prog struct {
 	SSA     *ssa.Program
 	Overlay map[string]bool // absolute file names that exist only in memory
 
-	cg    *callgraph.Graph
-	cgCHA *callgraph.Graph
-	all   map[*ssa.Function]bool
+	cg       *callgraph.Graph
+	cgCHA    *callgraph.Graph
+	all      map[*ssa.Function]bool
+	modFuncs []*ssa.Function
 }
 
 // AnalysisError is raised (as panic) for conditions that must never be
@@ -293,10 +294,43 @@ func (p *Prog) AllFuncs() map[*ssa.Function]bool {
 // ModuleFuncs returns the module's source functions (incl. closures) sorted
 // by position; functions declared in overlay files are included.
 func (p *Prog) ModuleFuncs() []*ssa.Function {
+	if p.modFuncs != nil {
+		return p.modFuncs
+	}
+	seen := map[*ssa.Function]bool{}
 	var out []*ssa.Function
-	for fn := range p.AllFuncs() {
-		if InModule(fn) && fn.Blocks != nil && fn.Synthetic == "" {
-			out = append(out, fn)
+	var add func(fn *ssa.Function)
+	add = func(fn *ssa.Function) {
+		if fn == nil || seen[fn] || fn.Blocks == nil || fn.Synthetic != "" {
+			return
+		}
+		seen[fn] = true
+		out = append(out, fn)
+		for _, a := range fn.AnonFuncs {
+			add(a)
+		}
+	}
+	for _, pk := range p.Pkgs {
+		sp := p.SSA.Package(pk.Types)
+		if sp == nil {
+			continue
+		}
+		for _, m := range sp.Members {
+			switch x := m.(type) {
+			case *ssa.Function:
+				add(x)
+			case *ssa.Type:
+				n, ok := x.Type().(*types.Named)
+				if !ok {
+					continue
+				}
+				for _, t := range []types.Type{n, types.NewPointer(n)} {
+					ms := p.SSA.MethodSets.MethodSet(t)
+					for i := 0; i < ms.Len(); i++ {
+						add(p.SSA.MethodValue(ms.At(i)))
+					}
+				}
+			}
 		}
 	}
 	sort.Slice(out, func(i, j int) bool {
@@ -309,6 +343,7 @@ func (p *Prog) ModuleFuncs() []*ssa.Function {
 		}
 		return out[i].String() < out[j].String()
 	})
+	p.modFuncs = out
 	return out
 }
 
